@@ -104,6 +104,11 @@ func main() {
 		rep.world = w
 		pc.run(w, rep)
 
+		if *tier == "thorough" && !*noEvidence {
+			rep.Rule("selftest", "thorough tier: every recorded variant of the repository that this check is expected to catch (selftest/mutations.tsv, seeded/) is still caught when applied to a scratch copy of the current tree", 0)
+			runVariants(pc, *repo, *out, rep)
+		}
+
 		return
 	}()
 	_ = code
